@@ -709,6 +709,13 @@ pub fn cands_corpus(or: &Oracles, tier_quick: bool, seed: u64) -> Vec<String> {
             first_kar.entry(or.suffix[*k].chars().next().unwrap()).or_insert(*k);
         }
         let per_class = if tier_quick { 2 } else { 12 };
+        // ("a FINAL ৎ / ং": words that hold the same letter earlier too come first in their class)
+        for (last, ws) in by_last.iter_mut() {
+            if *last == '\u{09CE}' || *last == '\u{0982}' {
+                let l = *last;
+                ws.sort_by_key(|w| if w.chars().filter(|c| *c == l).count() >= 2 { 0 } else { 1 });
+            }
+        }
         for (_, ws) in by_last {
             let mut got = 0;
             for w in ws.iter().skip((seed % 7) as usize) {
